@@ -31,6 +31,7 @@ pub fn abort_to_json(a: &AbortPlan) -> Value {
         AbortPlan::Never => json!({"kind": "never"}),
         AbortPlan::AtPoll(k) => json!({"kind": "at_poll", "k": k}),
         AbortPlan::AtTime(t) => json!({"kind": "at_time", "t": t}),
+        AbortPlan::AtRegion(r, p) => json!({"kind": "at_region", "region": r, "poll_in_region": p}),
     }
 }
 
@@ -38,6 +39,7 @@ pub fn abort_from_json(v: &Value) -> AbortPlan {
     match v["kind"].as_str().unwrap_or("never") {
         "at_poll" => AbortPlan::AtPoll(v["k"].as_u64().unwrap()),
         "at_time" => AbortPlan::AtTime(v["t"].as_u64().unwrap()),
+        "at_region" => AbortPlan::AtRegion(v["region"].as_u64().unwrap(), v["poll_in_region"].as_u64().unwrap()),
         _ => AbortPlan::Never,
     }
 }
